@@ -307,6 +307,15 @@ theorem lt_strict_total (a b c : Grid Int) :
       · exact Or.inr (Or.inr (Or.inr ⟨h.symm, h'⟩))
     · exact Or.inr (Or.inr (Or.inl h))
 
+/-! ## output -/
+
+/-- **output_spec** — `operator<<` never reads outside the cells and prints the nested form `render`: the last
+    coordinate is the outermost level, every level is `(` its sub-levels separated by `,` `)` (so `()` for an
+    extent 0), the innermost entries are the cells `v (x, …)` with `x` running fastest — the storage order. -/
+theorem output_is_nested_row_major {α : Type} {g : Grid α} {v : Pos → α} (hg : Denotes g v) (sh : α → String) :
+    g.output sh = .ok (render (fun p => sh (v p)) g.size.reverse []) :=
+  output_spec hg sh
+
 /-- `in_range` (for an unsigned position: all components ≥ 0) is the in-range predicate. -/
 theorem inRange_spec {α : Type} (g : Grid α) {p : Pos} (hl : p.length = g.size.length) (hp : NonNeg p) :
     g.inRange p = true ↔ InRange g.size p :=
@@ -426,6 +435,10 @@ example : posRange [0, 2, 0] [2, 1, 2] = .ok [] ∧ rangeSize [0, 2, 0] [2, 1, 2
 -- without the reset to `min` the carry would leave the box: the model's carry really resets
 example : next [1, 0] [0, 0] [2, 2] = [0, 1] := by decide
 example : Within [1, 0] [3, 2] [3, 2] := by simp [Within]
+-- a 2 x 2 grid and a grid with an empty row dimension
+example : (⟨[2, 2], [1, 2, 3, 4]⟩ : Grid Int).output toString = .ok "((1,2),(3,4))" ∧
+    (⟨[0, 3], []⟩ : Grid Int).output toString = .ok "((),(),())" ∧ (⟨[3, 0], []⟩ : Grid Int).output toString = .ok "()" := by
+  refine ⟨by rfl, by rfl, by rfl⟩
 -- static rows: 3 cells per row, 2 rows; the cell at (x, y) = (2, 1) is the last of the second row
 example : (Grid.mkRows [1, 2, 3] [[4, 5, 6]]).size = [3, 2] ∧ (Grid.mkRows [1, 2, 3] [[4, 5, 6]]).getUnsafe [2, 1] = .ok 6 := by decide
 -- same flattened cells, different shape: not equal, and ordered by size
